@@ -17,12 +17,13 @@ RealOut(c) == [u |-> ToSet(c.out.u), now |-> ToSet(c.out.now), agg |-> ToSet(c.o
 TInit == /\ tid \in 1..N
          /\ LET c == Cases[tid] IN
             /\ q = [k \in 1..Len(c.q) |-> [n |-> c.q[k].n, t |-> c.q[k].t, qu |-> c.q[k].qu]]
+            /\ first = c.first
             /\ ucastSrc = c.ucastSrc /\ probe = c.probe /\ known = ToSet(c.known)
             /\ rec = [r \in Recs |-> c.rec[r]]
          /\ out = Empty /\ phase = "in"
 TNext == /\ phase = "in" /\ phase' = "done"
          /\ out' = RealOut(Cases[tid])
-         /\ UNCHANGED <<q, ucastSrc, probe, known, rec, tid>>
+         /\ UNCHANGED <<q, first, ucastSrc, probe, known, rec, tid>>
 TSpec == TInit /\ [][TNext]_<<vars, tid>>
 
 Model == IF NoStrategy THEN Empty ELSE Result(RunQuestions(Empty, 1))
@@ -30,7 +31,7 @@ QuOrProbe == probe \/ \E qq \in Qs : ~ucastSrc /\ qq.qu
 Clause ==
   IF ~Asked \/ ~AddsOwn THEN "C03_RouteAsked"
   ELSE IF out.u # Want(LAMBDA x : x.u) THEN "C11_RouteUnicast"
-  ELSE IF out.now # Want(LAMBDA x : x.now) \/ out.agg # Want(LAMBDA x : x.agg) \/ out.last # Want(LAMBDA x : x.last)
+  ELSE IF ~\E S \in Readings : RoutesUnder(S)
        THEN (IF QuOrProbe THEN "C11_RouteMulticast" ELSE "C12_RouteTiming")
   ELSE ""
 Mine(cl) == cl # "" /\ (D.own = "ALL" \/ cl \in (CASE D.own = "C03" -> {"C03_RouteAsked"}
